@@ -102,20 +102,10 @@ func H_C15_keys(t *verifrt.T) {
 	}
 	want := verifref.FieldFor(names, tok.Value)
 	t.Assert("valid-document-accepted", err == nil)
-	// recorded finding D23: on the map-lookup path (names that collide under case folding) a key
-	// that matches only case-insensitively is not matched at all
-	nothing := got == [5]int{}
-	wi := want
-	if wi < 0 {
-		wi = 0
-	}
-	kf := verifrt.And(mapPath, want >= 0, string(tok.Value) != names[wi], nothing)
-	if want >= 0 {
-		t.Known("D23-case-insensitive-match-missing-on-map-path", kf)
-	}
+	_ = mapPath
 	for i := 0; i < 5; i++ {
 		if i == want {
-			t.Assert("selected-field-assigned", verifrt.Or(kf, got[i] == 7))
+			t.Assert("selected-field-assigned", got[i] == 7)
 		} else {
 			t.Assert("other-fields-untouched", got[i] == 0)
 		}
